@@ -1,0 +1,429 @@
+//go:build verif
+
+/*
+ * SPDX-License-Identifier: Apache-2.0
+ */
+
+package ristretto
+
+import (
+	"iter"
+	"sort"
+	"sync"
+	"sync/atomic"
+	"time"
+)
+
+// Verification hooks, enabled (`-tags verif`). Nothing here changes behaviour
+// until a hook table is installed with VerifInstall: without one every hook
+// falls through to the original code path.
+//
+// The hooks give a deterministic simulator the seams it needs:
+//   - Yield: a preemption point (the simulator parks the goroutine there);
+//   - TaskStart/TaskEnd/Idle: the two background goroutines announce
+//     themselves, and park at their loop head until one select case is ready
+//     and has been chosen by the simulator (Gate then leaves only that case);
+//   - RangePick: the order in which a map is enumerated where that order is
+//     observable;
+//   - Stripe: which Get-stripe a caller is handed (sync.Pool stand-in);
+//   - Event: observations without a preemption point.
+
+// VerifReadier is implemented by the objects whose background loop registers
+// with the simulator; the simulator calls it from its own goroutine.
+type VerifReadier interface {
+	// VerifReady reports which select cases of the loop are ready, as a bit
+	// mask over verifCase*.
+	VerifReady() uint32
+}
+
+// VerifHooks is the hook table.
+type VerifHooks struct {
+	Yield     func(site int, key uint64)
+	Event     func(kind int, key uint64, a, b int64)
+	TaskStart func(kind int, obj VerifReadier)
+	TaskEnd   func(kind int)
+	// Idle parks the calling background goroutine until the simulator has
+	// chosen one ready case, and returns that case.
+	Idle func(kind int) int
+	// RangePick returns the index (into keys, sorted ascending) of the next
+	// key to enumerate. RangeSeen reports a key handed to the loop body.
+	RangePick func(site int, keys []uint64) int
+	RangeSeen func(site int, key uint64)
+	// Stripe chooses among nfree idle stripes; pick == nfree asks for a new
+	// stripe. lose discards the picked stripe (what a GC does to sync.Pool).
+	Stripe func(nfree int) (pick int, lose bool)
+}
+
+var verifH *VerifHooks
+
+// VerifInstall installs (or with nil removes) the hook table. It must not be
+// called while a cache is in use.
+func VerifInstall(h *VerifHooks) { verifH = h }
+
+// Exported copies of the identifiers in verif_sites.go for the simulator.
+const (
+	VerifSiteCount   = verifSiteCount
+	VerifTaskApplier = verifTaskApplier
+	VerifTaskPolicy  = verifTaskPolicy
+	VerifCaseItems   = verifCaseItems
+	VerifCaseTick    = verifCaseTick
+	VerifCaseStop    = verifCaseStop
+
+	VerifSiteWaitSend        = verifSiteWaitSend
+	VerifSiteWaitRecv        = verifSiteWaitRecv
+	VerifSiteSetDetached     = verifSiteSetDetached
+	VerifSiteSetSend         = verifSiteSetSend
+	VerifSiteDelDetached     = verifSiteDelDetached
+	VerifSiteDelSend         = verifSiteDelSend
+	VerifSiteDelSent         = verifSiteDelSent
+	VerifSiteStoreIterShard  = verifSiteStoreIterShard
+	VerifSiteStoreClearShard = verifSiteStoreClearShard
+	VerifSiteTTLCleanup      = verifSiteTTLCleanup
+	VerifSiteTTLCleanupKey   = verifSiteTTLCleanupKey
+	VerifSiteStoreDel        = verifSiteStoreDel
+	VerifSiteStoreExpiration = verifSiteStoreExpiration
+	VerifSitePolicyCost      = verifSitePolicyCost
+	VerifSitePolicyDel       = verifSitePolicyDel
+	VerifSiteApplierVictim   = verifSiteApplierVictim
+	VerifSiteStoreSet        = verifSiteStoreSet
+	VerifSiteClearDrain      = verifSiteClearDrain
+	VerifSiteClearStopped    = verifSiteClearStopped
+	VerifSiteStoreUpdate     = verifSiteStoreUpdate
+	VerifRangeSample         = verifRangeSample
+	VerifRangeCleanup        = verifRangeCleanup
+)
+
+type verifLoopState struct {
+	on      bool
+	gate    int
+	stopReq int32
+	tick    chan time.Time
+}
+
+func verifYield(site int, key uint64) {
+	if h := verifH; h != nil && h.Yield != nil {
+		h.Yield(site, key)
+	}
+}
+
+func verifEvent(kind int, key uint64, a, b int64) {
+	if h := verifH; h != nil && h.Event != nil {
+		h.Event(kind, key, a, b)
+	}
+}
+
+func verifTaskStart(kind int, obj any) {
+	if h := verifH; h != nil && h.TaskStart != nil {
+		h.TaskStart(kind, obj.(VerifReadier))
+	}
+}
+
+func verifTaskEnd(kind int) {
+	if h := verifH; h != nil && h.TaskEnd != nil {
+		h.TaskEnd(kind)
+	}
+}
+
+func verifIdle(kind int, st *verifLoopState) {
+	h := verifH
+	if h == nil || h.Idle == nil {
+		st.on = false
+		return
+	}
+	if st.tick == nil {
+		st.tick = make(chan time.Time, 1)
+	}
+	st.on = true
+	st.gate = h.Idle(kind)
+	if st.gate == verifCaseStop {
+		atomic.AddInt32(&st.stopReq, -1)
+	}
+}
+
+func verifStopRequest(st *verifLoopState) {
+	if verifH != nil {
+		atomic.AddInt32(&st.stopReq, 1)
+	}
+}
+
+func verifGate[T any](ch <-chan T, st *verifLoopState, which int) <-chan T {
+	if !st.on || st.gate == which {
+		return ch
+	}
+	return nil
+}
+
+func verifGateTick(ch <-chan time.Time, st *verifLoopState) <-chan time.Time {
+	if !st.on {
+		return ch
+	}
+	if st.gate == verifCaseTick {
+		return st.tick
+	}
+	return nil
+}
+
+// verifRange enumerates m in an order chosen by the simulator.
+func verifRange[V any](m map[uint64]V, site int) iter.Seq2[uint64, V] {
+	return func(yield func(uint64, V) bool) {
+		h := verifH
+		if h == nil || h.RangePick == nil {
+			for k, v := range m {
+				if !yield(k, v) {
+					return
+				}
+			}
+			return
+		}
+		keys := make([]uint64, 0, len(m))
+		for k := range m {
+			keys = append(keys, k)
+		}
+		sort.Slice(keys, func(i, j int) bool { return keys[i] < keys[j] })
+		for len(keys) > 0 {
+			i := 0
+			if len(keys) > 1 {
+				i = h.RangePick(site, keys)
+			}
+			k := keys[i]
+			keys = append(keys[:i], keys[i+1:]...)
+			v, ok := m[k]
+			if !ok {
+				// Deleted by the loop body meanwhile: a native range would
+				// not produce it either.
+				continue
+			}
+			if h.RangeSeen != nil {
+				h.RangeSeen(site, k)
+			}
+			if !yield(k, v) {
+				return
+			}
+		}
+	}
+}
+
+// Simulator-owned stand-in for the sync.Pool of ringBuffer: which stripe a
+// caller gets, and when a stripe is lost, are simulator decisions. The stripe
+// itself (ringStripe.Push, the hand-off to the policy) is the real code. The
+// per-stripe mutex is never contended; it gives successive users of one stripe
+// the same happens-before edge sync.Pool gives them.
+type verifStripe struct {
+	mu   sync.Mutex
+	s    *ringStripe
+	busy bool
+}
+
+type verifRingState struct {
+	stripes []*verifStripe
+}
+
+//go:norace
+func verifRingCheckout(b *ringBuffer) *verifStripe {
+	h := verifH
+	var free []*verifStripe
+	for _, vs := range b.verifRing.stripes {
+		if !vs.busy {
+			free = append(free, vs)
+		}
+	}
+	pick, lose := h.Stripe(len(free))
+	var vs *verifStripe
+	if pick >= len(free) || pick < 0 {
+		vs = &verifStripe{s: b.pool.New().(*ringStripe)}
+		b.verifRing.stripes = append(b.verifRing.stripes, vs)
+	} else {
+		vs = free[pick]
+		if lose {
+			vs.s = b.pool.New().(*ringStripe)
+		}
+	}
+	vs.busy = true
+	return vs
+}
+
+//go:norace
+func verifRingCheckin(vs *verifStripe) { vs.busy = false }
+
+func verifRingPush(b *ringBuffer, item uint64) bool {
+	h := verifH
+	if h == nil || h.Stripe == nil {
+		return false
+	}
+	vs := verifRingCheckout(b)
+	vs.mu.Lock()
+	vs.s.Push(item)
+	vs.mu.Unlock()
+	verifRingCheckin(vs)
+	return true
+}
+
+// VerifReady implements VerifReadier for the applier loop.
+//
+//go:norace
+func (c *Cache[K, V]) VerifReady() uint32 {
+	var m uint32
+	if len(c.setBuf) > 0 {
+		m |= 1 << verifCaseItems
+	}
+	st := &c.verifLoop
+	if st.tick != nil {
+		if len(st.tick) == 0 {
+			select {
+			case t := <-c.cleanupTicker.C:
+				st.tick <- t
+			default:
+			}
+		}
+		if len(st.tick) > 0 {
+			m |= 1 << verifCaseTick
+		}
+	}
+	if atomic.LoadInt32(&st.stopReq) > 0 {
+		m |= 1 << verifCaseStop
+	}
+	return m
+}
+
+// VerifReady implements VerifReadier for the policy loop.
+//
+//go:norace
+func (p *defaultPolicy[V]) VerifReady() uint32 {
+	var m uint32
+	if len(p.itemsCh) > 0 {
+		m |= 1 << verifCaseItems
+	}
+	if atomic.LoadInt32(&p.verifLoop.stopReq) > 0 {
+		m |= 1 << verifCaseStop
+	}
+	return m
+}
+
+// ---- white-box accessors (read-only; they take the same locks as the code) ----
+
+// VerifSetBufSize sets the capacity of the write buffer of caches created
+// afterwards and returns the previous value.
+func VerifSetBufSize(n int) int {
+	old := setBufSize
+	setBufSize = n
+	return old
+}
+
+// VerifItemSize is the internal per-item cost.
+func VerifItemSize() int64 { return itemSize }
+
+type VerifEntry[V any] struct {
+	Key, Conflict uint64
+	Value         V
+	Expiration    time.Time
+}
+
+type VerifKeyCost struct {
+	Key  uint64
+	Cost int64
+}
+
+type VerifBucket struct {
+	Num  int64
+	Keys []uint64
+}
+
+// VerifSnap is a consistent-per-component copy of the internal state. The
+// components are read one after the other, so it is a snapshot only when
+// nothing else runs (the simulator guarantees that).
+type VerifSnap[V any] struct {
+	Entries     []VerifEntry[V]
+	KeyCosts    []VerifKeyCost
+	Used        int64
+	MaxCost     int64
+	Buckets     []VerifBucket
+	LastCleaned int64
+	SetBufLen   int
+	SetBufCap   int
+	ItemsChLen  int
+	Metrics     []uint64 // nil when metrics are disabled
+}
+
+func (c *Cache[K, V]) VerifSnapshot() *VerifSnap[V] {
+	s := &VerifSnap[V]{}
+	sm := c.storedItems.(*shardedMap[V])
+	for _, sh := range sm.shards {
+		sh.RLock()
+		for _, it := range sh.data {
+			s.Entries = append(s.Entries, VerifEntry[V]{it.key, it.conflict, it.value, it.expiration})
+		}
+		sh.RUnlock()
+	}
+	sort.Slice(s.Entries, func(i, j int) bool { return s.Entries[i].Key < s.Entries[j].Key })
+	p := c.cachePolicy
+	p.Lock()
+	for k, v := range p.evict.keyCosts {
+		s.KeyCosts = append(s.KeyCosts, VerifKeyCost{k, v})
+	}
+	s.Used = p.evict.used
+	s.MaxCost = p.evict.getMaxCost()
+	p.Unlock()
+	sort.Slice(s.KeyCosts, func(i, j int) bool { return s.KeyCosts[i].Key < s.KeyCosts[j].Key })
+	em := sm.expiryMap
+	em.RLock()
+	for n, b := range em.buckets {
+		vb := VerifBucket{Num: n}
+		for k := range b {
+			vb.Keys = append(vb.Keys, k)
+		}
+		sort.Slice(vb.Keys, func(i, j int) bool { return vb.Keys[i] < vb.Keys[j] })
+		s.Buckets = append(s.Buckets, vb)
+	}
+	s.LastCleaned = em.lastCleanedBucketNum
+	em.RUnlock()
+	sort.Slice(s.Buckets, func(i, j int) bool { return s.Buckets[i].Num < s.Buckets[j].Num })
+	s.SetBufLen, s.SetBufCap = len(c.setBuf), cap(c.setBuf)
+	s.ItemsChLen = len(p.itemsCh)
+	if c.Metrics != nil {
+		s.Metrics = make([]uint64, doNotUse)
+		for i := 0; i < doNotUse; i++ {
+			s.Metrics[i] = c.Metrics.get(metricType(i))
+		}
+	}
+	return s
+}
+
+// VerifPolicyState returns the capacity accounting only (cheaper than a full
+// snapshot; used after every admission decision).
+func (c *Cache[K, V]) VerifPolicyState() (used, maxCost, sum int64, n int) {
+	p := c.cachePolicy
+	p.Lock()
+	defer p.Unlock()
+	for _, v := range p.evict.keyCosts {
+		sum += v
+	}
+	return p.evict.used, p.evict.getMaxCost(), sum, len(p.evict.keyCosts)
+}
+
+// VerifEstimate returns the TinyLFU estimate of a key hash.
+func (c *Cache[K, V]) VerifEstimate(keyHash uint64) int64 {
+	p := c.cachePolicy
+	p.Lock()
+	defer p.Unlock()
+	return p.admit.Estimate(keyHash)
+}
+
+// VerifEstimateLocked is VerifEstimate for callers that run inside a hook
+// invoked under the policy lock (events emitted from within Add).
+func (c *Cache[K, V]) VerifEstimateLocked(keyHash uint64) int64 {
+	return c.cachePolicy.admit.Estimate(keyHash)
+}
+
+// VerifPolicyCosts returns the accounted keys and costs without taking the
+// policy lock; only for hooks that run under it.
+func (c *Cache[K, V]) VerifPolicyCostsLocked() (keys []VerifKeyCost, used, maxCost int64) {
+	p := c.cachePolicy
+	for k, v := range p.evict.keyCosts {
+		keys = append(keys, VerifKeyCost{k, v})
+	}
+	sort.Slice(keys, func(i, j int) bool { return keys[i].Key < keys[j].Key })
+	return keys, p.evict.used, p.evict.getMaxCost()
+}
+
+// VerifHash exposes the cache's key hasher.
+func (c *Cache[K, V]) VerifHash(key K) (uint64, uint64) { return c.keyToHash(key) }
